@@ -790,7 +790,14 @@ def rw_closure_specs(toks, specs, rep, qual):
                         rep.append(("hint", f"closure {text!r} #{nth}: parameters renamed {ren}; contract attached with the same renaming (closure {i})"))
                 else:
                     for (text, nth, retdecl, ens) in specs_g:
-                        rep.append(("LOST", f"closure {text!r} #{nth} not found: contract not attached"))
+                        rep.append(("LOST?", (text, nth)))
+    # a contract whose closure is gone: say how many closures of the function are left WITHOUT a contract — if none, the
+    # closure was removed (nothing is missing from the proof script); otherwise the contract may belong to a rewritten one
+    bare_ = len(cl) - len({k for (k, _, _) in resolved})
+    for q_ in range(len(rep)):
+        if rep[q_][0] == "LOST?":
+            text, nth = rep[q_][1]
+            rep[q_] = ("LOST", f"closure {text!r} #{nth} not found: contract not attached (closures left without a contract in the function: {bare_})")
     # all insertions are computed on the original token positions and applied from the back, so that a closure nested
     # in the expression body of another one does not shift the outer closure's end
     ins = []
@@ -2700,6 +2707,26 @@ def _extract_block(body_toks, frm, to, a, rep):
         # change adds to the arm are inside the block
         ap = pat_tokens(a["block_arm"])
         ah = _find_seq_any(body_toks, ap)
+        if len(ah) > 1:
+            # the pattern text also occurs elsewhere (e.g. inside a `matches!(..)`): an ARM sits directly inside the braces
+            # of its `match`, right after `{`, `,` or the `}` of the previous arm
+            def _arm_pos(h):
+                pv = _prev_sig(body_toks, h[0])
+                if pv < 0 or body_toks[pv].text not in ("{", ",", "}"):
+                    return False
+                d_ = 0
+                for q_ in range(h[0] - 1, -1, -1):
+                    tq_ = body_toks[q_]
+                    if tq_.kind == PUNCT and tq_.text in CLOSE:
+                        d_ += 1
+                    elif tq_.kind == PUNCT and tq_.text in OPEN:
+                        if d_ == 0:
+                            return tq_.text == "{"
+                        d_ -= 1
+                return False
+            arms_ = [h for h in ah if _arm_pos(h)]
+            if len(arms_) == 1:
+                ah = arms_
         if len(ah) != 1:
             raise AnchorLost(f"block_arm {a['block_arm']!r}: {len(ah)} matches")
         endp = ah[0][1]
